@@ -110,8 +110,16 @@ fn run(args: &Args) {
                 4..=6 => {
                     let mut setup = make_test_channel_setup();
                     setup.funding_outpoint.vout = dbid as u32;
+                    // a third of the channels get a permanent id that differs from the temporary one
+                    let perm = if dbid % 3 == 0 || rng.chance(1, 4) {
+                        let mut b = vec![0xaau8; 32];
+                        b[0] = dbid as u8;
+                        Some(ChannelId::new(&b))
+                    } else {
+                        None
+                    };
                     let r = catch_unwind(AssertUnwindSafe(|| {
-                        node.setup_channel(cid.clone(), None, setup, &DerivationPath::master()).is_ok()
+                        node.setup_channel(cid.clone(), perm, setup, &DerivationPath::master()).is_ok()
                     }));
                     (format!("SetupChannel {}", dbid), json!(["setup_channel", dbid]), r.map_err(|_| ()))
                 }
